@@ -177,6 +177,11 @@ def Obj.setOne (o : Obj α) (i : Nat) (v : α) : Except Err (Obj α) :=
 
 /-! ### constructors and the frequency setter -/
 
+/-- :230-235, local-ratio case of `setFrequencies`: `valpha_[i] = probas[i + 1] / probas[i]` while the
+parameter list is being built -/
+def Obj.cacheWrite (o : Obj α) (p : List α) : Obj α :=
+  if o.method = 2 then { o with valpha := ratios p } else o
+
 /-- `Simplex::setFrequencies` :209-269 on any object (the call of `fireParameterChanged` inside
 `matchParametersValues` is virtual).  Returns the object after the call and the exception, if any:
 for the local-ratio coding `valpha_[i]` is written at :234, BEFORE `matchParametersValues` validates
@@ -187,7 +192,7 @@ def Obj.setFrequenciesBase (o : Obj α) (probas : List α) : Obj α × Option Er
   else if probas.length < o.dim then (o, some .ub)
   else
     let p := probas.take o.dim
-    let o1 := if o.method = 2 then { o with valpha := ratios p } else o
+    let o1 := o.cacheWrite p
     match o1.matchReq (reqOfList (paramsOf o.method p)) with
     | .ok o2 => (o2, none)
     | .error e => (o1, some e)
